@@ -54,8 +54,7 @@ func VerifC18Estimate() {
 	verifAssume(delay >= 0)
 	// every whole nanosecond below 64 s - 2^-18 s = 63 999 996 185.30 ns
 	verifAssume(delay <= 63999996185)
-	rns := sns + delay
-	verifAssume(rns < verifNTPEraEndNs)
+	rns := sns + delay // the receive instant may lie up to 64 s past the era end
 	ext := NewAbsSendTimeExtension(send)
 	verifAssert("C18.estimate.24bit", ext.Timestamp>>24 == ext.Timestamp>>24&0xFFFFFFFFFF) // Timestamp is a plain 38-bit-shifted NTP value
 	// only the 24-bit wire field reaches the receiver
